@@ -53,6 +53,16 @@ def cases(tier):
                         continue
                     out.append({'family': 'cf1d', 'ny': a, 'nx': b, 'lat_kind': lat_kind, 'lon_kind': lon_kind,
                                 'bounds': bnds, 'names': names, 'coords_as': coords_as})
+        # bounds stored for one coordinate only (every mode against every other), nearly uniform axes, signed zeros
+        for lat_mode, lon_mode in itertools.product(('none', 'var', 'coord', 'gapped'), repeat=2):
+            if lat_mode != lon_mode:
+                out.append({'family': 'cf1d', 'ny': a, 'nx': b, 'lat_kind': 'nonuni', 'lon_kind': 'desc', 'bounds_lat': lat_mode,
+                            'bounds_lon': lon_mode, 'bounds': 'mixed', 'names': 'dim', 'coords_as': 'coord'})
+        for bnds in ('none', 'var'):
+            out.append({'family': 'cf1d', 'ny': a, 'nx': b, 'lat_kind': 'nearuni', 'lon_kind': 'nearuni', 'bounds': bnds,
+                        'names': 'other', 'coords_as': 'coord'})
+        out.append({'family': 'cf1d', 'ny': a, 'nx': b, 'lat_kind': 'asc', 'lon_kind': 'asc', 'lat0': -0.125, 'lon0': -0.125, 'bounds': 'var',
+                    'signed_zero': True, 'names': 'dim', 'coords_as': 'coord'})
         # coordinates stored as integers or float32 (derived bounds must not inherit the storage type)
         for lat_kind, lon_kind in (('int', 'intdesc'), ('intdesc', 'int'), ('float32', 'int'), ('int', 'float32')):
             for bnds in ('none', 'var'):
@@ -76,6 +86,11 @@ def cases(tier):
                 for coords_as in ('coord', 'var'):
                     out.append({'family': 'shoc_standard', 'nj': a, 'ni': b, 'geometry': geometry, 'dry': dry,
                                 'coords_as': coords_as})
+            # a finite node that belongs to no cell, longitude with its dimensions the other way round, column-major arrays
+            out.append({'family': 'shoc_standard', 'nj': a, 'ni': b, 'geometry': geometry, 'dry': 'corner', 'ragged': True, 'coords_as': 'coord'})
+            out.append({'family': 'shoc_standard', 'nj': a, 'ni': b, 'geometry': geometry, 'dry': 'none', 'transposed_lon': True, 'coords_as': 'coord'})
+            out.append({'family': 'shoc_standard', 'nj': a, 'ni': b, 'geometry': geometry, 'dry': 'farcorner', 'fortran': True, 'coords_as': 'var'})
+            out.append({'family': 'cf2d', 'ny': a, 'nx': b, 'geometry': geometry, 'bounds': 'stored', 'holes': 'first', 'fortran': True, 'coords_as': 'coord'})
     # one grid per family above 2^16 cells (thorough: above 2^18): batch / offset arithmetic in bulk construction
     out.append({'family': 'cf1d', 'ny': 260, 'nx': 255, 'bounds': 'var', 'lat_kind': 'asc', 'lon_kind': 'asc', 'names': 'dim',
                 'coords_as': 'coord', 'nt': 1, 'nk': 1})
@@ -87,7 +102,7 @@ def cases(tier):
                     'coords_as': 'coord', 'nt': 1, 'nk': 1})
         out.append({'family': 'cf2d', 'ny': 520, 'nx': 510, 'geometry': 'rect', 'bounds': 'stored', 'holes': 'corner', 'coords_as': 'coord',
                     'nt': 1, 'nk': 1})
-    meshes = ['M1', 'M4', 'M5', 'M7', 'M8', 'M10'] if quick else ['M1', 'M2', 'M3', 'M4', 'M5', 'M6', 'M7', 'M8', 'M9', 'M10']
+    meshes = ['M1', 'M3', 'M4', 'M5', 'M6', 'M7', 'M8', 'M10', 'M11'] if quick else ['M1', 'M2', 'M3', 'M4', 'M5', 'M6', 'M7', 'M8', 'M9', 'M10', 'M11']
     for mesh in meshes:
         for start_index, fill, transposed, coords_as, face_coords in itertools.product(
                 (0, 1), ('nan', 'fillattr'), (False, True), ('var', 'coord'), (False, True)):
@@ -98,6 +113,11 @@ def cases(tier):
                 out.append({**spec, 'io': 'reopen'})
                 if fill == 'fillattr':
                     out.append({**spec, 'io': 'raw'})
+        # tables wider than the largest face; another unrelated topology variable in the file
+        for fill in ('nan', 'fillattr'):
+            out.append({'family': 'ugrid', 'mesh': mesh, 'extra_width': 1, 'fill': fill, 'start_index': 1})
+            out.append({'family': 'ugrid', 'mesh': mesh, 'extra_width': 2, 'fill': fill, 'transposed': True})
+        out.append({'family': 'ugrid', 'mesh': mesh, 'second_mesh': True})
         # MPAS style: one-based indexes, 0 marks "no node"
         out.append({'family': 'ugrid', 'mesh': mesh, 'start_index': 1, 'fill': 'fillattr', 'fill_value': 0})
         out.append({'family': 'ugrid', 'mesh': mesh, 'start_index': 1, 'fill': 'fillattr', 'fill_value': 0, 'transposed': True, 'io': 'raw'})
